@@ -84,6 +84,15 @@ static const std::vector<std::string> &bank_pool() {
         std::string t = default_wopn_image(); p.push_back(t.substr(0, t.size() - 1)); p.push_back(t.substr(0, 40)); p.push_back(t.substr(0, 12));
         p.push_back(std::string("WOPN2-B2NK\0\2\0\xff\xff\xff\xff\0", 18)); p.push_back(std::string(100, 'x')); p.push_back("");
         { WFile f; f.version = 2; WBank b; WIns w = wins_audible(1, 1, 32767); for(int i = 0; i < 128; i++) b.ins.push_back(w); b.msb = 200; b.lsb = 200; f.mel.push_back(b); f.perc.push_back(b); p.push_back(wopn_write(f)); }
+        // entries 9..17 (the first nine keep their indices, and 18 % 18 == 0, for the committed regression inputs)
+        { auto near = [](int chip) { WFile f; f.version = 2; f.chip_type = (uint8_t)chip; WBank b, pb; static const int offs[] = {12000, 12100, 12150, 12180, 12200, 12230, 12260, 12288, 12289, 12290, 12291, 20000, -12290, -32768};
+              for(int i = 0; i < 128; i++) { b.ins.push_back(wins_audible(1, 1, offs[i % 14])); pb.ins.push_back(wins_audible(1, 2, offs[i % 14], (uint8_t)(35 + i % 40))); } f.mel.push_back(b); f.perc.push_back(pb); return wopn_write(f); };
+          p.push_back(near(0)); p.push_back(near(1)); std::string t = near(0); p.push_back(t.substr(0, t.size() - 100)); }   // note offsets around the point where the frequency formula overflows (tone ~12188..12290)
+        { WFile f; f.version = 1; WBank m, q; for(int i = 0; i < 128; i++) { m.ins.push_back(wins_audible((uint8_t)(i & 31), 1)); q.ins.push_back(wins_audible((uint8_t)(i & 31), 2, 0, (uint8_t)(35 + i % 40))); } f.mel.push_back(m); f.perc.push_back(q); p.push_back(wopn_write(f)); }
+        { WFile f; f.version = 2; WBank q; for(int i = 0; i < 128; i++) q.ins.push_back(wins_audible(1, 2, 0, 40)); f.perc.push_back(q); p.push_back(wopn_write(f)); }   // no melodic bank
+        { WFile f; f.version = 2; WBank m; for(int i = 0; i < 128; i++) m.ins.push_back(wins_audible(1, 1)); f.mel.push_back(m); p.push_back(wopn_write(f)); }           // no percussion bank
+        { WFile f; f.version = 2; for(int k = 0; k < 4; k++) { WBank m; m.lsb = (uint8_t)k; m.msb = (uint8_t)(k == 3 ? 127 : 0); for(int i = 0; i < 128; i++) m.ins.push_back(wins_audible((uint8_t)k, 1, k * 12)); f.mel.push_back(m); } WBank q; for(int i = 0; i < 128; i++) q.ins.push_back(wins_audible(1, 2, 0, 40)); f.perc.push_back(q); p.push_back(wopn_write(f)); }
+        p.push_back(default_wopn_image(15, 0)); p.push_back(default_wopn_image(0, 1));
     }
     return p;
 }
